@@ -117,7 +117,7 @@ def date_normalisation(mlo=-24, mhi=36, dlo=-60, dhi=400, ylo=1900, yhi=9999, kn
         inrange = z3.And(spec >= 0, spec <= 2958465)
         # recorded finding C20-date-rollover-feb1900: rolling over INTO or ACROSS the
         # fictitious day (serial 60) is off by one
-        feb = z3.Or(z3.And(yy == 1900, mm <= 2, spec >= 60), z3.And(spec == 60, z3.Not(z3.And(yy == 1900, mm == 2))),
+        feb = z3.Or(z3.And(z3.Or(yy < 1900, z3.And(yy == 1900, mm <= 2)), spec >= 60), z3.And(spec == 60, z3.Not(z3.And(yy == 1900, mm == 2))),
                     z3.And(z3.Or(yy > 1900, z3.And(yy == 1900, mm >= 3)), spec < 60, False))
         assume = [y >= ylo, y <= yhi, m >= mlo, m <= mhi, d >= dlo, d <= dhi]
         if known_feb1900:
